@@ -63,8 +63,10 @@ type Handler struct {
 	recDesc   *description.Session
 	publisher *gortsplib.ServerSession
 
-	// OnRecvRTP is invoked for packets received from a recording session
-	OnRecvRTP func(sess int, mediaIdx int, forma format.Format, pkt *rtp.Packet)
+	// OnRecvRTP is invoked for packets received from a recording session (and, with BackChannelRTP, from the back
+	// channels of playing sessions)
+	OnRecvRTP      func(sess int, mediaIdx int, forma format.Format, pkt *rtp.Packet)
+	BackChannelRTP bool
 	// OnRecvRTCP is invoked for RTCP packets received from any playing or recording session
 	OnRecvRTCP func(sess int)
 	// Forward received packets into the record stream
@@ -232,6 +234,14 @@ func (h *Handler) OnSetup(ctx *gortsplib.ServerHandlerOnSetupCtx) (*base.Respons
 func (h *Handler) OnPlay(ctx *gortsplib.ServerHandlerOnPlayCtx) (*base.Response, error) {
 	h.rec("play", ctx.Conn, ctx.Session, ctx.Path, ctx.Query, len(ctx.Session.Medias()), nil)
 	h.hookRTCP(ctx.Session)
+	if h.OnRecvRTP != nil && h.BackChannelRTP {
+		// packets a reader sends on a back channel
+		sess := ctx.Session
+		h.mu.Lock()
+		sid := h.sessID(sess)
+		h.mu.Unlock()
+		sess.OnPacketRTPAny(func(_ *description.Media, f format.Format, pkt *rtp.Packet) { h.OnRecvRTP(sid, -1, f, pkt) })
+	}
 	return &base.Response{StatusCode: base.StatusOK}, nil
 }
 
